@@ -31,3 +31,35 @@ pub fn sniff_version(src: &mut BytesMut) -> Result<Option<u8>, DecodeError> {
         })
     })
 }
+
+/// `inflight::InFlightServiceImpl` (the v3 default in-flight limiter)
+pub use crate::inflight::InFlightServiceImpl;
+
+/// `io::Dispatcher::new(..).keepalive_timeout(..)`: the framed dispatcher with
+/// caller supplied codec, request service and control service
+pub fn dispatcher<P, C, U, E>(
+    io: ntex_io::IoBoxed,
+    codec: U,
+    service: P,
+    control: C,
+    keepalive: ntex_util::time::Seconds,
+) -> impl std::future::Future<Output = Result<(), C::Error>>
+where
+    P: ntex_service::Service<
+            <U as Decoder>::Item,
+            Response = Option<<U as ntex_codec::Encoder>::Item>,
+            Error = crate::error::DispatcherError<E>,
+        > + 'static,
+    C: ntex_service::Service<
+            crate::Control<E>,
+            Response = Option<<U as ntex_codec::Encoder>::Item>,
+        > + 'static,
+    U: Decoder<Error = DecodeError>
+        + ntex_codec::Encoder<Error = crate::error::EncodeError>
+        + Clone
+        + 'static,
+    <U as ntex_codec::Encoder>::Item: 'static,
+    E: 'static,
+{
+    crate::io::Dispatcher::new(io, codec, service, control).keepalive_timeout(keepalive)
+}
